@@ -373,6 +373,8 @@ def check_case_tokens(eoc, ops, recs):
        instance for that key; an instance under another token is never returned
     K3 a query executed with identity_token=t returns, for every row, the identity map's
        instance for (pk, t)
+    K4 the identity token of an instance never changes (detached instances incl. pickle round
+       trips, re-attached with add, changed and flushed)
     """
     prev = None
     for j, (op, r) in enumerate(zip(ops, recs)):
@@ -383,6 +385,17 @@ def check_case_tokens(eoc, ops, recs):
         objs = r["objs"]
         cur = [state_letter(o) for o in objs]
         imap = {(k, t): i for k, t, i in r["imap_t"]}
+        # K4: the identity token of an instance never changes (a flush may switch the primary key
+        # part of the identity key, never the token: Session.get / queries under that token would
+        # no longer find the instance and load a second one for the same row)
+        if prev is not None:
+            for i, o in enumerate(objs):
+                if i < len(prev["objs"]):
+                    po = prev["objs"][i]
+                    if po["key"] is not None and o["key"] is not None and po["token"] != o["token"]:
+                        return dict(i=j, check="K4", sig="identity-token-of-instance-changed", obj=i,
+                                    detail="instance %d had identity (%s, %r), after %s it has (%s, %r)" % (
+                                        i, po["key"], po["token"], ":".join(str(x) for x in op), o["key"], o["token"]))
         for (k, t), i in imap.items():
             if not (0 <= i < len(objs)) or cur[i] not in "SD" or objs[i]["key"] != k or objs[i]["token"] != t:
                 return dict(i=j, check="K1", sig="imap-entry-key-token-mismatch",
